@@ -462,6 +462,9 @@ func c19Scenario(spec *c19Spec) *Scenario {
 			if rtoMax == 0 {
 				rtoMax = 60000
 			}
+			if rtoMax < 1000 {
+				rtoMax = 1000 // a configured maximum below the protocol minimum cannot pull timeouts under one second
+			}
 			checkGaps := func(what string, times []time.Duration, minExp int) {
 				// drop sends at the same instant (PTO probe together with T3)
 				var ts []time.Duration
@@ -532,6 +535,9 @@ func c19HandshakeScenario(kind string, rtoMax float64, il bool) *Scenario {
 			if rm == 0 {
 				rm = defaultRTOMax
 			}
+			if rm < 1000 {
+				rm = 1000
+			}
 			bound := time.Duration(float64(maxInitRetrans+1)*rm) * time.Millisecond
 			ok := m.WaitUntil("dial-failed", bound+5*time.Second, func() bool { return p.dialT.Done })
 			if !ok {
@@ -560,6 +566,9 @@ func c19HandshakeScenario(kind string, rtoMax float64, il bool) *Scenario {
 			rm := rtoMax
 			if rm == 0 {
 				rm = defaultRTOMax
+			}
+			if rm < 1000 {
+				rm = 1000
 			}
 			for i := 1; i < len(times); i++ {
 				gap := times[i] - times[i-1]
@@ -866,9 +875,12 @@ func c19EndToEnd(j *Job) {
 	}
 	// (2) end to end
 	for _, il := range []bool{false, true} {
-		for _, rm := range []float64{4000, 0} {
+		for _, rm := range []float64{4000, 0, 300} {
 			for _, kind := range []string{"data-blackhole", "shutdown-blackhole", "reconfig-blackhole"} {
 				if !j.Thorough() && il && rm == 0 {
+					continue
+				}
+				if rm == 300 && (il || kind != "data-blackhole") {
 					continue
 				}
 				j.Explore(fmt.Sprintf("E/%s/rtomax%v/il%v", kind, rm, il), c19Scenario(&c19Spec{kind: kind, rtoMax: rm, il: il}), Budget{}, nil)
@@ -886,9 +898,12 @@ func c19EndToEnd(j *Job) {
 	}
 	// handshake timers against a peer that goes silent
 	for _, il := range []bool{false, true} {
-		for _, rm := range []float64{4000, 0} {
+		for _, rm := range []float64{4000, 0, 300} {
 			for _, kind := range []string{"silent", "initack-nocookie", "initack-then-silent"} {
 				if !j.Thorough() && il && rm == 0 {
+					continue
+				}
+				if rm == 300 && (il || kind != "silent") {
 					continue
 				}
 				j.Explore(fmt.Sprintf("HS/%s/rtomax%v/il%v", kind, rm, il), c19HandshakeScenario(kind, rm, il), Budget{}, nil)
